@@ -192,6 +192,7 @@ func c09RunName(idx int, name string, v2 bool, multiFrame bool, versions []*mess
 	for opts := 0; opts < 64; opts++ {
 		for wi, wl := range wls {
 			for vi, ver := range versions {
+				typelessBaselineOK := false
 				for st := stNoKey; st <= stKeyedClearAfterSecret; st++ {
 					res.Evals++
 					res.Nontrivial++
@@ -245,8 +246,42 @@ func c09RunName(idx int, name string, v2 bool, multiFrame bool, versions []*mess
 						res.Violate("C09/cleartext-on-encrypting", "%s", id)
 					}
 					if opts&int(message.PutClassAdNoTypes) != 0 {
-						res.Outcome("no-types-receiver-skipped")
-						continue // the typed receiver needs the type strings; wire checks above still applied
+						// an ad without type strings can only be received as the LAST thing of its message
+						// (the reader takes "message ended" for "no types"): send it again without the
+						// sentinel - the private attribute is then the last content before end-of-message
+						sb2 := &netsim.Buf{}
+						m2 := message.NewMessageForStream(c09Stream(st, sb2))
+						err := m2.PutClassAdWithOptions(ctx, mkAd(), cfg)
+						if err == nil {
+							err = m2.FinishMessage(ctx)
+						}
+						if err != nil {
+							res.Violate("C09/send-error", "%s (ad ends the message): %v", id, err)
+							continue
+						}
+						ad, err := message.NewMessageFromStream(c09Stream(st, &netsim.Buf{R: sb2.W})).GetClassAd(ctx)
+						if st == stNoKey {
+							typelessBaselineOK = err == nil
+						}
+						if err != nil {
+							// the library has no reader for type-less ads as such; what is demanded is that a
+							// stream holding a key but not encrypting receives whatever a stream with no key does
+							if st.keyedClear() && typelessBaselineOK {
+								res.Violate(fmt.Sprintf("C09/receiver-error/%v", st), "%s: a stream without a key receives this type-less ad, the keyed non-encrypting stream fails: %v", id, err)
+							} else {
+								res.Outcome("no-types-unreceivable-in-this-state")
+							}
+							continue
+						}
+						gotPriv, havePriv := ad.EvaluateAttrString(name)
+						if havePriv != hasCanary || (havePriv && gotPriv != canary) {
+							res.Violate(fmt.Sprintf("C09/receiver-mismatch/%v", st), "%s: type-less ad: wire carries private=%v, receiver rebuilt private=%v (%q)", id, hasCanary, havePriv, gotPriv)
+						}
+						if v, ok := ad.EvaluateAttrString("Pub"); !ok || v != "pubvalue" {
+							res.Violate(fmt.Sprintf("C09/public-lost/wl=%d", wi), "%s: type-less ad: a public attribute did not arrive", id)
+						}
+						res.Outcome("no-types-ad-ends-message")
+						continue
 					}
 					// the real receiver in the same state rebuilds the filtered ad
 					rb := &netsim.Buf{R: sb.W}
